@@ -732,6 +732,30 @@ def run(ck):
                   timeout=900)
     results, hresults = out["results"], out["histories"]
 
+    # -- environment: the deterministic cells again under python -O, another hash seed, another working directory;
+    #    the answers (lists as multisets) must be those of the default run
+    def canon_out(o):
+        def cl(x):
+            return sorted(x) if isinstance(x, list) else x
+        def cg(x):
+            return canon_groups(x) if isinstance(x, list) else x
+        return {"resolved": [cl(x) for x in o["resolved"]], "all": cl(o["all"]), "opt": cg(o["opt"]),
+                "resolved_after": [cl(x) for x in o["resolved_after"]], "opt2": cg(o["opt2"]),
+                "ordered": [x.get("ids", x) for x in o.get("ordered") or []]}
+    env_cases = [strip(c) for c in cases[:len(CORPUS)]]
+    for label, kw in (("python -O", {"pyflags": ["-O"]}), ("PYTHONHASHSEED=3", {"extra_env": {"PYTHONHASHSEED": "3"}}),
+                      ("cwd=/", {"cwd": "/"})):
+        try:
+            er = ck.impl("c14_impl.py", {"cases": env_cases}, timeout=300, **kw)["results"]
+        except Exception as e:  # noqa
+            ck.oblige("environment:%s:runs" % label, False, str(e)[-800:], kind="correspondence")
+            continue
+        diff = [i for i, (a, b) in enumerate(zip(results[:len(env_cases)], er)) if canon_out(a) != canon_out(b)]
+        ck.oblige("environment:%s:same-answers-as-default-run" % label, not diff, "differing corpus cells: %s" % diff, kind="correspondence")
+        for i in diff[:1]:
+            ck.witness("C14:answers-depend-on-environment:" + label, "the same cell gives other answers under %s" % label,
+                       input=dict(env_cases[i], environment=label), expected=canon_out(results[i]), observed=canon_out(er[i]))
+
     # -- the natsort hypotheses on the REAL natsorted (a permutation - equal keys merge nothing - that
     #    fixes its own output), and the model's sorts against it (both are stable sorts of a list)
     sterms = []
